@@ -24,8 +24,9 @@
 EXTENDS Naturals, Sequences, FiniteSets, TLC
 
 CONSTANTS
-  InstFS,    \* sequence of file-system instances; an instance is a sequence of entries
-  Spell,     \* sequence of base spellings [route, cwd, b, mp]  (cwd physical; b, mp strings)
+  InstFS,    \* sequence of file-system instances; an instance is a function
+             \* physical path -> entry (Dir / File / Link)
+  Spell,     \* sequence of base spellings [name, route, cwd, b, mp]  (cwd physical; b, mp strings)
   LoadFix    \* TRUE: ir.load derives  dirname(path) or "."  (the intended design)
              \* FALSE: ir.load derives dirname(path)          (the code as pinned)
 
@@ -37,10 +38,9 @@ File(p, i) == [p |-> p, k |-> "file", ino |-> i, to |-> <<>>]
 Link(p, t) == [p |-> p, k |-> "link", ino |-> 0, to |-> t]
 NoEntry    == [p |-> <<>>, k |-> "none", ino |-> 0, to |-> <<>>]
 
-Has(I, p)   == \E n \in DOMAIN I : I[n].p = p
-Entry(I, p) == IF Has(I, p) THEN I[CHOOSE n \in DOMAIN I : I[n].p = p] ELSE NoEntry
+Entry(I, p) == IF p \in DOMAIN I THEN I[p] ELSE NoEntry
 Kind(I, p)  == Entry(I, p).k
-NLink(I, i) == Cardinality({n \in DOMAIN I : I[n].k = "file" /\ I[n].ino = i})
+NLink(I, i) == Cardinality({q \in DOMAIN I : I[q].k = "file" /\ I[q].ino = i})
 
 \* ---------------------------------------------------------------- strings (posixpath)
 PFront(s)   == SubSeq(s, 1, Len(s) - 1)
@@ -134,75 +134,78 @@ Real(I, cwd, s) == RWalk(I, IF IsAbsS(s) THEN <<>> ELSE cwd, s, Fuel)
 \* ---------------------------------------------------------------- the code: _check_path_containment
 Pass       == [ok |-> TRUE,  why |-> "-"]
 Fail(w)    == [ok |-> FALSE, why |-> w]
+Under(lead1, p, lead2, b) == (lead1 = lead2 /\ p = b) \/ (lead1 = lead2 /\ IsStrictPrefix(b, p))
 
-\* layer 1: path_abs == base_abs or path_abs.startswith(base_abs + "/")   (strings, not resolved)
-LexInside(cwd, b, path) ==
-  LET B == Abs(cwd, b)  P == Abs(cwd, path) IN
-  P = B \/ (P.lead = B.lead /\ IsStrictPrefix(B.c, P.c))
-\* layer 2: the same on realpath(base_dir) and realpath(path)
-RealInside(I, cwd, b, path) ==
-  LET B == Real(I, cwd, b)  P == Real(I, cwd, path) IN P = B \/ IsStrictPrefix(B, P)
-\* layer 3: os.stat(path_real).st_nlink > 1 (a failing stat counts as 1).  The link count of a
-\* directory is file-system dependent (>= 2 on ext4/tmpfs, 1 on btrfs): a directory is reported
-\* as its own class, it is refused either here or by open() (EISDIR).
-LinkClass(I, cwd, path) ==
-  LET e == Entry(I, Real(I, cwd, path)) IN
-  IF e.k = "file" THEN (IF NLink(I, e.ino) > 1 THEN "nlink" ELSE "-")
-  ELSE IF e.k = "dir" THEN "dir" ELSE "-"
+\* everything that depends on (instance, working directory, base_dir) only
+Ctx(I, cwd, b) ==
+  [I |-> I, cwd |-> cwd, b |-> b,
+   babs  |-> Abs(cwd, b),        \* normcase(normpath(abspath(base_dir)))
+   breal |-> Real(I, cwd, b),    \* normcase(realpath(base_dir))
+   kb    |-> KRes(I, cwd, b)]    \* where the kernel finds the base directory (ground truth)
 
-Check(I, cwd, b, loc) ==
-  IF IsEmptyS(b) THEN Pass                      \* "if not self._base_dir: return"
-  ELSE LET path == Join(b, loc) IN
-    IF ~LexInside(cwd, b, path) THEN Fail("lexical")
-    ELSE IF ~RealInside(I, cwd, b, path) THEN Fail("realpath")
-    ELSE LET c == LinkClass(I, cwd, path) IN IF c = "-" THEN Pass ELSE Fail(c)
+\* one evaluation of _check_path_containment followed by open(self.path):
+\*   layer 1: path_abs == base_abs or path_abs.startswith(base_abs + "/")   (strings, not resolved)
+\*   layer 2: the same on realpath(base_dir) and realpath(path)
+\*   layer 3: os.stat(path_real).st_nlink > 1 (a failing stat counts as 1).  The link count of a
+\*            directory is file-system dependent (>= 2 on ext4/tmpfs, 1 on btrfs): a directory is
+\*            its own class, refused either here or by open() (EISDIR).
+\*   open:    the RAW joined path, resolved by the kernel
+Eval(C, loc) ==
+  LET path  == Join(C.b, loc)
+      pabs  == Abs(C.cwd, path)
+      preal == Real(C.I, C.cwd, path)
+      lex   == Under(pabs.lead, pabs.c, C.babs.lead, C.babs.c)
+      rin   == Under(1, preal, 1, C.breal)
+      re    == Entry(C.I, preal)
+      lc    == IF re.k = "file" THEN (IF NLink(C.I, re.ino) > 1 THEN "nlink" ELSE "-")
+               ELSE IF re.k = "dir" THEN "dir" ELSE "-"
+      chk   == IF IsEmptyS(C.b) THEN Pass            \* "if not self._base_dir: return"
+               ELSE IF ~lex THEN Fail("lexical")
+               ELSE IF ~rin THEN Fail("realpath")
+               ELSE IF lc # "-" THEN Fail(lc) ELSE Pass
+      kp    == KRes(C.I, C.cwd, path)
+      ke    == Entry(C.I, kp.p)
+      opn   == IF ~kp.ok THEN [f |-> 0, err |-> kp.err]
+               ELSE IF ke.k = "file" THEN [f |-> ke.ino, err |-> "-"] ELSE [f |-> 0, err |-> "EISDIR"]
+  IN [path |-> path, lex |-> lex, chk |-> chk, o |-> opn, kp |-> kp, rp |-> preal]
 
-\* open(self.path, "rb"): inode of the regular file, or the errno
-OpenRes(I, cwd, b, loc) ==
-  LET r == KRes(I, cwd, Join(b, loc)) IN
-  IF ~r.ok THEN [f |-> 0, err |-> r.err]
-  ELSE LET e == Entry(I, r.p) IN
-    IF e.k = "file" THEN [f |-> e.ino, err |-> "-"] ELSE [f |-> 0, err |-> "EISDIR"]
+Check(I, cwd, b, loc)   == Eval(Ctx(I, cwd, b), loc).chk
+OpenRes(I, cwd, b, loc) == Eval(Ctx(I, cwd, b), loc).o
 
 \* outcome of one uncached read (every loader: check, then open)
 Acc(f)  == [k |-> "acc", f |-> f, why |-> "-"]
 Rej(w)  == [k |-> "rej", f |-> 0, why |-> w]
-Verdict(I, cwd, b, loc) ==
-  LET c == Check(I, cwd, b, loc) IN
-  IF ~c.ok THEN Rej(c.why)
-  ELSE LET o == OpenRes(I, cwd, b, loc) IN IF o.f = 0 THEN Rej(o.err) ELSE Acc(o.f)
+VerdictOf(e) == IF ~e.chk.ok THEN Rej(e.chk.why) ELSE IF e.o.f = 0 THEN Rej(e.o.err) ELSE Acc(e.o.f)
+Verdict(I, cwd, b, loc) == VerdictOf(Eval(Ctx(I, cwd, b), loc))
 
 \* ---------------------------------------------------------------- what the property demands
 \* the files a read may return under base spelling b: singly linked regular files whose physical
 \* location is strictly inside the physical base directory (kernel semantics, not the code's)
-Legit(I, cwd, b) ==
-  LET rb == KRes(I, cwd, b) IN
-  IF ~rb.ok THEN {}
-  ELSE {I[n].ino : n \in {m \in DOMAIN I : I[m].k = "file" /\ IsStrictPrefix(rb.p, I[m].p)
-                                          /\ NLink(I, I[m].ino) = 1}}
+LegitOf(C) ==
+  IF ~C.kb.ok THEN {}
+  ELSE {C.I[q].ino : q \in {m \in DOMAIN C.I : C.I[m].k = "file" /\ IsStrictPrefix(C.kb.p, m)
+                                               /\ NLink(C.I, C.I[m].ino) = 1}}
+Legit(I, cwd, b) == LegitOf(Ctx(I, cwd, b))
 
-FailClosedAt(I, cwd, b, loc) ==
-  LET v == Verdict(I, cwd, b, loc) IN
-  (v.k = "acc" /\ ~IsEmptyS(b)) =>
-     /\ v.f \in Legit(I, cwd, b)
-     /\ LET kp == KRes(I, cwd, Join(b, loc))  rb == KRes(I, cwd, b) IN
-        kp.ok /\ rb.ok /\ IsStrictPrefix(rb.p, kp.p) /\ Kind(I, kp.p) = "file"
+\* C: context, lg = LegitOf(C), e = Eval(C, loc)
+FailClosedAt(C, lg, e) ==
+  (VerdictOf(e).k = "acc" /\ ~IsEmptyS(C.b)) =>
+     /\ e.o.f \in lg
+     /\ e.kp.ok /\ C.kb.ok /\ IsStrictPrefix(C.kb.p, e.kp.p) /\ Kind(C.I, e.kp.p) = "file"
 
 \* documented allowed case 1: plain names (no "", ".", "..", no link on the way) inside base
 PlainName(c) == c # "" /\ c # "." /\ c # ".."
-NoOverRejectPlainAt(I, cwd, b, loc) ==
-  LET rb == KRes(I, cwd, b) IN
-  (/\ ~IsEmptyS(b) /\ rb.ok /\ \A n \in DOMAIN loc : PlainName(loc[n])
-   /\ \A n \in 1..(Len(loc) - 1) : Kind(I, rb.p \o SubSeq(loc, 1, n)) = "dir"
-   /\ Kind(I, rb.p \o loc) = "file" /\ NLink(I, Entry(I, rb.p \o loc).ino) = 1)
-  => Verdict(I, cwd, b, loc) = Acc(Entry(I, rb.p \o loc).ino)
+NoOverRejectPlainAt(C, loc, e) ==
+  LET tp == C.kb.p \o loc IN
+  (/\ ~IsEmptyS(C.b) /\ C.kb.ok /\ \A n \in DOMAIN loc : PlainName(loc[n])
+   /\ \A n \in 1..(Len(loc) - 1) : Kind(C.I, C.kb.p \o SubSeq(loc, 1, n)) = "dir"
+   /\ Kind(C.I, tp) = "file" /\ NLink(C.I, Entry(C.I, tp).ino) = 1)
+  => VerdictOf(e) = Acc(Entry(C.I, tp).ino)
 \* allowed case 2 (what the code grants, stated): every location that is lexically inside and
 \* that the kernel resolves to a legitimate file is readable - non-normalised forms and symbolic
 \* links (to files or directories) whose target stays inside base included
-NoOverRejectAt(I, cwd, b, loc) ==
-  LET o == OpenRes(I, cwd, b, loc) IN
-  (~IsEmptyS(b) /\ LexInside(cwd, b, Join(b, loc)) /\ o.f # 0 /\ o.f \in Legit(I, cwd, b))
-  => Verdict(I, cwd, b, loc) = Acc(o.f)
+NoOverRejectAt(C, lg, e) ==
+  (~IsEmptyS(C.b) /\ e.lex /\ e.o.f # 0 /\ e.o.f \in lg) => VerdictOf(e) = Acc(e.o.f)
 
 \* ir.load(path): base_dir of every external tensor of the model
 LoadBaseDir(mp) == LET d == Dirname(mp) IN IF LoadFix /\ IsEmptyS(d) THEN <<".">> ELSE d
@@ -234,10 +237,9 @@ OpenEv(f)   == [e |-> "open",  b |-> base, ok |-> f # 0, f |-> f]
 
 \* _load() / the body of tofile(): events in code order and the result
 Load ==
-  LET c == Check(FS, Cwd, base, loc) IN
-  IF ~c.ok THEN [ev |-> <<CheckEv(FALSE)>>, r |-> Rej(c.why)]
-  ELSE LET o == OpenRes(FS, Cwd, base, loc) IN
-    [ev |-> <<CheckEv(TRUE), OpenEv(o.f)>>, r |-> IF o.f = 0 THEN Rej(o.err) ELSE Acc(o.f)]
+  LET e == Eval(Ctx(FS, Cwd, base), loc) IN
+  IF ~e.chk.ok THEN [ev |-> <<CheckEv(FALSE)>>, r |-> VerdictOf(e)]
+  ELSE [ev |-> <<CheckEv(TRUE), OpenEv(e.o.f)>>, r |-> VerdictOf(e)]
 
 Record(c, a, r, ev) == hist' = Append(hist, [c |-> c, a |-> a, base |-> base, r |-> r, ev |-> ev])
 
